@@ -184,6 +184,16 @@ func (d *Driver) Run() int {
 				}
 			}()
 			fx.applyKnownRegions(d)
+			if d.Prop != "" {
+				// render only the queries of this property
+				var keep []*Query
+				for _, q := range fx.queries {
+					if q.IsCover || hasTag(q.Tags, d.Prop) {
+						keep = append(keep, q)
+					}
+				}
+				fx.queries = keep
+			}
 			fx.Finalize()
 		}()
 		n := 0
